@@ -47,6 +47,22 @@ impl Chooser {
         self.costs.push(cost);
         c as usize
     }
+    /// a decision whose number of alternatives is only known afterwards (`set_width`)
+    pub fn choose_deferred(&mut self, cost: u8) -> (usize, usize) {
+        let i = self.taken.len();
+        let c = if i < self.prefix.len() { self.prefix[i] } else { 0 };
+        self.taken.push(c);
+        self.widths.push(1);
+        self.costs.push(cost);
+        (i, c as usize)
+    }
+    pub fn set_width(&mut self, idx: usize, n: usize) {
+        if (self.taken[idx] as usize) >= n.max(1) {
+            eprintln!("MACHINERY: replay divergence at deferred decision {idx}: choice {} of {n}; prefix {:?}", self.taken[idx], self.prefix);
+            std::process::exit(2);
+        }
+        self.widths[idx] = n.max(1) as u32;
+    }
     pub fn label(&mut self, f: impl FnOnce() -> String) {
         if self.want_labels {
             self.labels.push(f());
